@@ -324,6 +324,8 @@ def env_cases(draw):
         if draw(st.integers(0, 2)) == 0:
             install[r] = draw(_dirs) + draw(st.sampled_from(['', '/sub',
                                                              '/a b']))
+            if draw(st.integers(0, 7)) == 0:
+                install[r] = '/'        # the file-system root itself
     return {
         'srcdir': draw(st.sampled_from(['/src', '/home/u/my proj',
                                         '/s/é/p'])),
@@ -517,6 +519,9 @@ E1_VARS = {
     'C09_DEF': ['preset'],
     'C09_UNI': ['ü é 日本'],
     'UNRELATED': ['1', 'two words'],
+    # read by helper processes bfg9000 starts (the compiler probes), not by
+    # bfg9000 itself; @VENDOR@ is a header directory the project also names
+    'C_INCLUDE_PATH': ['@VENDOR@', '/nonexistent/cinc'],
 }
 
 
@@ -530,7 +535,8 @@ def e2e_cases(draw):
     use_tc = bool(tc) and draw(st.integers(0, 3)) > 0
     opts = []
     if draw(st.booleans()):
-        opts.append('--prefix=' + draw(st.sampled_from(['/opt/p', '/o/my p'])))
+        opts.append('--prefix=' + draw(st.sampled_from(['/opt/p', '/o/my p',
+                                                        '/'])))
     if draw(st.booleans()):
         opts.append(draw(st.sampled_from(['--enable-static',
                                           '--disable-shared',
@@ -555,7 +561,8 @@ def e2e_cases(draw):
             e2[k] = draw(st.sampled_from(['/bin/false', '-DPERTURBED',
                                           'other', '-O0']))
         elif how == 'added':
-            e2[k] = e1.get(k, 'added-later')
+            e2[k] = e1.get(k, 'added-later' if k != 'C_INCLUDE_PATH'
+                           else '@VENDOR@')
     return {'e1': e1, 'tc': tc if use_tc else [], 'opts': opts, 'user': user,
             'e2': e2, 'backend': 'make',
             # a regeneration that fails part-way through the toolchain file
@@ -569,7 +576,7 @@ project('c09proj', version='1.0')
 import json
 with open(env.builddir.append('argv.json').string(), 'w') as f:
     json.dump({'name': argv.name, 'feat': argv.feat}, f)
-executable('prog', ['prog.c'])
+executable('prog', ['prog.c'], includes=[header_directory('@VENDOR@')])
 lib = library('lib1', ['lib.c'])
 install(lib)
 command('show', cmd=['echo', 'hi'])
@@ -613,7 +620,7 @@ def parse_env0(data):
     return out
 
 
-READS = {'CC', 'CFLAGS', 'CPPFLAGS', 'LDFLAGS', 'LDLIBS'}
+READS = {'CC', 'CFLAGS', 'CPPFLAGS', 'LDFLAGS', 'LDLIBS', 'C_INCLUDE_PATH'}
 
 
 def prop_e2e(rec):
@@ -639,7 +646,14 @@ def prop_e2e(rec):
             src = os.path.join(tmp, 'top', 'src')
             bld = os.path.join(tmp, 'top', 'bld')
             os.makedirs(src)
-            sandbox.write_file(os.path.join(src, 'build.bfg'), BUILD_BFG)
+            vendor = os.path.join(tmp, 'top', 'vendor inc')
+            sandbox.write_file(os.path.join(vendor, 'vendor.h'), '/* v */\n')
+            case = dict(case, e1={k: v.replace('@VENDOR@', vendor)
+                                  for k, v in case['e1'].items()},
+                        e2={k: v.replace('@VENDOR@', vendor)
+                            for k, v in case['e2'].items()})
+            sandbox.write_file(os.path.join(src, 'build.bfg'),
+                               BUILD_BFG.replace('@VENDOR@', vendor))
             sandbox.write_file(os.path.join(src, 'options.bfg'), OPTIONS_BFG)
             sandbox.write_file(os.path.join(src, 'prog.c'),
                                'int main(void){return 0;}\n')
